@@ -89,6 +89,9 @@ def nomap_region(crys, chem, sitelist, jumpnetwork, M):
     return False
 
 
+COUNTERS = {"nomap_dropped": 0}  # supercell matrices removed from the pools by known-finding exclusions (all draws, including shrinking)
+
+
 def njumps(jn):
     return sum(len(jl) for jl in jn)
 
@@ -105,7 +108,14 @@ def setups(draw, kinds=("interstitial", "vacancy"), nsupers=(1, 3), maxsites_qui
     kind = draw(st.sampled_from(list(kinds) + (["vacancy"] if "vacancy" in kinds else [])))
     names = CAT_VAC if kind == "vacancy" else CAT_INT
     rec = draw(cs.recipes(dim=3, names=names, p_catalogue=0.5, max_species=3, max_mobile=4, max_other=3))
-    crys = cs.build(rec)
+    try:
+        crys = cs.build(rec)
+    except ArithmeticError as e:
+        # Crystal.reduce fails on some generated cells (known finding R12, C19's subject): use a catalogue structure instead
+        if "Reduction did not produce" not in str(e):
+            raise
+        rec = cs.CATALOGUE[draw(st.sampled_from(names))]
+        crys = cs.build(rec)
     nchem = len(crys.basis)
     if kind == "interstitial" and rec["name"] in ("HCPoct", "FCCoct"):
         chem = 0
@@ -134,7 +144,9 @@ def setups(draw, kinds=("interstitial", "vacancy"), nsupers=(1, 3), maxsites_qui
                     break
     pool = supers_for(crys.N, maxsites=maxsites_quick)
     if exclude_nomap and kind == "interstitial":
-        pool = [M for M in pool if not nomap_region(crys, chem, sl, jn, M)]  # n*I always survives
+        keep = [M for M in pool if not nomap_region(crys, chem, sl, jn, M)]  # n*I always survives
+        COUNTERS["nomap_dropped"] += len(pool) - len(keep)
+        pool = keep
     n = draw(st.integers(nsupers[0], nsupers[1]))
     big = [M for M in pool if abs(det(M)) >= 18]  # cells that can hold the kinetic shell (the "must not warn" class)
     supers = []
